@@ -128,8 +128,10 @@ class Extractor:
         self.token_effect = self._token_effect_methods()
         self.productions = {n for n in self.methods if n.startswith("_parse_") and n not in self.noreturn and n != "_parse_error"}
         self.special_pred = {"_peek_declarator_name_info"}
+        self.extra_roots = set()
         self._future_reads = {}
         self._control = {}
+        self._deref = {}
         self.site_counter = 0
         self.unknown_constructs = []
 
@@ -159,6 +161,8 @@ class Extractor:
     # ------------------------------------------------------------------
     def request(self, name, argsig=()):
         key = (name, tuple(argsig))
+        if name not in self.productions and name in self.methods:
+            self.extra_roots.add(name)
         if key not in self.prods:
             if name not in self.methods:
                 raise AnalysisError(f"call to unknown production {name}")
@@ -265,6 +269,31 @@ class Extractor:
             kinds.add(_kind(v))
         self.ret_summary[key] = kinds
         return prod
+
+    def deref_params(self, m):
+        """Parameters of method m that are dereferenced (attribute / subscript) without any None test in m."""
+        r = self._deref.get(m)
+        if r is not None:
+            return r
+        fn = self.methods[m]
+        params = {a.arg for a in fn.args.args[1:]}
+        tested, deref = set(), set()
+        for n in ast.walk(fn):
+            if isinstance(n, ast.Compare) and isinstance(n.left, ast.Name) and any(isinstance(c, ast.Constant) and c.value is None for c in n.comparators):
+                tested.add(n.left.id)
+            if isinstance(n, (ast.If, ast.While, ast.IfExp)) and isinstance(n.test, ast.Name):
+                tested.add(n.test.id)
+            if isinstance(n, ast.BoolOp):
+                for v in n.values:
+                    if isinstance(v, ast.Name):
+                        tested.add(v.id)
+            if isinstance(n, ast.UnaryOp) and isinstance(n.op, ast.Not) and isinstance(n.operand, ast.Name):
+                tested.add(n.operand.id)
+            if isinstance(n, (ast.Attribute, ast.Subscript)) and isinstance(n.value, ast.Name) and n.value.id in params:
+                deref.add(n.value.id)
+        r = deref - tested
+        self._deref[m] = r
+        return r
 
     def ret_kinds(self, name):
         out = set()
@@ -499,8 +528,14 @@ class _Run:
             for v, s1, ev1 in self.ev(e.value, st):
                 if v == ("ERR",):
                     yield v, s1, ev1
-                elif e.attr == "type" and v[0] == "peek":
-                    yield ("ptype", v[1]), s1, ev1
+                elif v[0] == "peek":
+                    k = v[1]
+                    la = s1.la[k - 1] if k <= 2 else self.U.all
+                    if EOF in la:
+                        yield ("ERR",), s1, ev1 + (("pyerror", f"AttributeError: .{e.attr} of the look-ahead token, which is None at end of input", getattr(e, "lineno", 0)),)
+                    if la - {EOF}:
+                        s2 = s1.with_la(k, la - {EOF}) if k <= 2 else s1
+                        yield (("ptype", k) if e.attr == "type" else Val.UNK), s2, ev1
                 elif e.attr == "type" and v[0] == "tok":
                     yield ("toktype", v[2]), s1, ev1
                 elif is_none(v):
@@ -704,13 +739,15 @@ class _Run:
                         yield neg, s2, evs
                     elif lv[0] == "ret":
                         kinds = self.ex.ret_kinds(lv[1])
+                        nm = e.left.id if isinstance(e.left, ast.Name) else None
                         if not kinds or "none" in kinds:
-                            yield (not neg), s2, evs
+                            yield (not neg), (s2.bind(nm, Val.NONE) if nm else s2), evs
                         if not kinds or kinds - {"none"}:
-                            yield neg, s2, evs
+                            yield neg, (s2.bind(nm, Val.OBJ) if nm else s2), evs
                     else:
-                        yield True, s2, evs
-                        yield False, s2, evs
+                        nm = e.left.id if isinstance(e.left, ast.Name) else None
+                        yield (not neg), (s2.bind(nm, Val.NONE) if nm else s2), evs
+                        yield neg, (s2.bind(nm, Val.OBJ) if nm and lv == Val.UNK else s2), evs
                     continue
                 if lv[0] == "const" and rv[0] == "const" and isinstance(op, (ast.Eq, ast.NotEq, ast.Is, ast.IsNot)):
                     yield ((lv[1] == rv[1]) != neg), s2, evs
@@ -768,6 +805,12 @@ class _Run:
                     yield ("ERR",), s1, ev1
                     continue
                 kw = tuple(sorted((k.arg, ex._quick_const(k.value, s1)) for k in e.keywords if k.arg))
+                dp = ex.deref_params(m)
+                cparams = [a.arg for a in ex.methods[m].args.args[1:]]
+                bound = list(zip(cparams, vs[:len(e.args)])) + [(k.arg, v) for k, v in zip(e.keywords, vs[len(e.args):])]
+                for pname, pv in bound:
+                    if pname in dp and self.may_be_none(pv, s1):
+                        ev1 = ev1 + (("pyerror", f"AttributeError: {m}() dereferences its argument `{pname}`, which may be None here", e.lineno),)
                 yield Val.OBJ if m in ("_tok_coord", "_coord", "_add_declaration_specifier", "_type_modify_decl", "_fix_decl_name_type", "_build_declarations", "_build_function_definition", "_build_parameter_declaration", "_select_struct_union_class") else Val.UNK, s1, ev1 + (("opaque", m, kw, e.lineno),)
             return
         # constructors / module functions / methods of other objects: evaluate args for effects
@@ -788,6 +831,16 @@ class _Run:
                 yield Val.OBJ, s1, ev1
             else:
                 yield Val.UNK, s1, ev1
+
+    def may_be_none(self, v, st):
+        if is_none(v):
+            return True
+        if v[0] == "peek":
+            la = st.la[v[1] - 1] if v[1] <= 2 else self.U.all
+            return EOF in la
+        if v[0] == "ret":
+            return "none" in self.ex.ret_kinds(v[1])
+        return False
 
     def args(self, e, st):
         """Evaluate receiver-less arguments left to right; yields (values|None if error, state, events)."""
@@ -849,7 +902,10 @@ class _Run:
                     s2 = State(la, tuple({k: self._stale(v, s1) for k, v in env.items()} for env in s1.envs))
                     yield Val.NONE, s2, ev1 + (("reset", origin),)
                 else:
-                    raise AnalysisError(f"{self.prod.name}: reset() of a value that is not a tracked mark (line {e.lineno}): {mv} envs={s1.envs[-1]}")
+                    # the stream is moved to a position that is not a mark taken on this path: tokens may be skipped
+                    # unparsed.  Modelled as an arbitrary jump (look-ahead unknown) and reported by R-C18.2.
+                    s2 = self.havoc(s1)
+                    yield Val.NONE, s2, ev1 + (("badreset", e.lineno),)
             return
         yield Val.UNK, st, ()
 
